@@ -1703,8 +1703,8 @@ RSASSA-PSS-params ::= SEQUENCE {
 */
 
 type RsaSsaPssParams struct {
-	HashAlgorithm    AlgorithmIdentifier `asn1:"explicit,tag:0" json:"hashAlgorithm"`
-	MaskGenAlgorithm AlgorithmIdentifier `asn1:"explicit,tag:1" json:"maskGenAlgorithm"`
+	HashAlgorithm    AlgorithmIdentifier `asn1:"explicit,optional,tag:0" json:"hashAlgorithm"`
+	MaskGenAlgorithm AlgorithmIdentifier `asn1:"explicit,optional,tag:1" json:"maskGenAlgorithm"`
 	SaltLength       *big.Int            `asn1:"explicit,optional,tag:2" json:"saltLength"`
 	TrailerField     *big.Int            `asn1:"explicit,optional,tag:3" json:"trailerField"`
 }
@@ -1726,6 +1726,11 @@ func (signature AlgorithmIdentifier) DetermineDigestAlgFromSigAlgWithConfig(conf
 		}
 
 		digestAlg = tmpParams.HashAlgorithm.Algorithm
+
+		// NB hashAlgorithm is 'DEFAULT sha1', so it is omitted in DER when SHA-1 is used (RFC 4055 s3.1)
+		if len(digestAlg) == 0 {
+			digestAlg = oid.OidHashAlgorithmSHA1
+		}
 	} else {
 		/*
 		* regular OID lookup for others
